@@ -181,6 +181,14 @@ func (e *Engine) clauseActive(c *Clause) bool {
 	return !hasProp || propOK
 }
 
+// noSwallowActive: the function's noswallow clause applies to the current property.
+func (e *Engine) noSwallowActive(fc *FuncC) bool {
+	if fc == nil || !fc.NoSwallow {
+		return false
+	}
+	return e.clauseActive(&Clause{Tags: fc.NoSwallowTags})
+}
+
 func (e *Engine) mutableGlobal(comp string) bool { return e.mutGlobals[comp] }
 
 // scanGlobalStores marks globals written outside package initialisers.
@@ -343,6 +351,9 @@ func (e *Engine) loadContracts() error {
 			case "funcfield":
 				e.externs["funcfield:"+fc.Ref] = fc
 				e.externPkg[fc] = p.Types
+			case "functype":
+				e.externs["functype:"+fc.Ref] = fc
+				e.externPkg[fc] = p.Types
 			}
 		}
 		for _, np := range cf.NoPanic {
@@ -479,6 +490,26 @@ func (e *Engine) contractFor(c *ssa.CallCommon) (*FuncC, *types.Package, []strin
 	}
 	fn := c.StaticCallee()
 	if fn == nil {
+		// call through a function-typed struct field: funcfield contract
+		if owner, field := funcFieldOf(c.Value); owner != "" {
+			if fc := e.externs["funcfield:"+owner+"."+field]; fc != nil {
+				var pn []string
+				for i := 0; i < sig.Params().Len(); i++ {
+					pn = append(pn, sig.Params().At(i).Name())
+				}
+				return fc, e.externPkg[fc], pn, rnames
+			}
+		}
+		// call of a value of a named function type: functype contract
+		if n := funcTypeOf(c.Value); n != "" {
+			if fc := e.externs["functype:"+n]; fc != nil {
+				var pn []string
+				for i := 0; i < sig.Params().Len(); i++ {
+					pn = append(pn, sig.Params().At(i).Name())
+				}
+				return fc, e.externPkg[fc], pn, rnames
+			}
+		}
 		return nil, nil, nil, nil
 	}
 	if fn.Origin() != nil {
@@ -556,6 +587,11 @@ func (e *Engine) FuncsForProperty(prop string) []*ssa.Function {
 		}
 	}
 	hasTag := func(fc *FuncC) bool {
+		for _, t := range fc.NoSwallowTags {
+			if t == prop {
+				return true
+			}
+		}
 		for _, cs := range [][]*Clause{fc.Requires, fc.Ensures} {
 			for _, c := range cs {
 				if c.HasTag(prop) {
@@ -679,6 +715,18 @@ func (e *Engine) VerifyFunc(fn *ssa.Function) (vc *VC) {
 		for i, p := range fn.Params {
 			env.vars[p.Name()] = args[i]
 		}
+		// captured variables of a function literal: cells owned by the enclosing function
+		for _, fv := range fn.FreeVars {
+			if pt, ok := fv.Type().Underlying().(*types.Pointer); ok {
+				tv := f.havocValue(st, "fv."+fv.Name(), fv.Type())
+				vc.assert("(> " + tv.T + " 0)")
+				if f.fvBind == nil {
+					f.fvBind = map[*ssa.FreeVar]TV{}
+				}
+				f.fvBind[fv] = tv
+				env.vars[fv.Name()] = f.load(st, f.lvOfRef(tv.T, pt.Elem()))
+			}
+		}
 		var pres []string
 		for _, r := range fc.Requires {
 			if e.clauseActive(r) {
@@ -697,6 +745,10 @@ func (e *Engine) VerifyFunc(fn *ssa.Function) (vc *VC) {
 			}
 			st.ghost[g.Name] = TV{T: init, S: s, Ty: ty}
 		}
+	}
+	f.initVisited(st)
+	if e.noSwallowActive(fc) {
+		st.ghost[noSwallowGhost] = TV{T: "false", S: "Bool", Ty: types.Typ[types.Bool]}
 	}
 	vc.obls = append(vc.obls, &Obl{Name: f.namePfx + "/cover/entry", Kind: "cover", Guard: st.alive, Goal: "true", Cover: true, Func: f.namePfx})
 	f.run(st, args)
@@ -733,6 +785,15 @@ func (e *Engine) VerifyFunc(fn *ssa.Function) (vc *VC) {
 		for n, tv := range f.params {
 			env.vars[n] = tv
 		}
+		// ... but a captured variable denotes its current content (old(v) the
+		// content at entry): the variable outlives the call
+		for _, fv := range fn.FreeVars {
+			if _, ok := fv.Type().Underlying().(*types.Pointer); ok {
+				if _, ok := f.vals[fv]; ok {
+					env.vars[fv.Name()] = f.load(rst, f.lvalOf(fv))
+				}
+			}
+		}
 		sig := fn.Signature
 		for k, rv := range r.results {
 			env.vars[fmt.Sprintf("result%d", k)] = rv
@@ -768,7 +829,7 @@ func (e *Engine) VerifyFunc(fn *ssa.Function) (vc *VC) {
 			st2 := rst.clone()
 			f.obligeClause(st2, "post", en.Text, g, en, r.instr.Pos())
 		}
-		if fc.NoSwallow {
+		if e.noSwallowActive(fc) {
 			f.noSwallowAt(rst, r)
 		}
 	}
@@ -776,22 +837,26 @@ func (e *Engine) VerifyFunc(fn *ssa.Function) (vc *VC) {
 	return vc
 }
 
+// noswallow: the ghost noswallowErr is set when a call of the function returns
+// a non-nil error; it must be false at every loop header (no iteration goes on
+// after an error) and imply a non-nil error result at every return.
+const noSwallowGhost = "noswallowErr"
+
 func (f *frame) noSwallowAt(st *bstate, r retInfo) {
 	// the returned error is the last result of type error
 	var ret *TV
 	for i := range r.results {
-		if r.results[i].S == "Iface" {
+		if r.results[i].S == "Iface" && r.results[i].Ty != nil && types.Identical(r.results[i].Ty, errorType) {
 			ret = &r.results[i]
 		}
 	}
-	if ret == nil {
+	g, ok := st.ghost[noSwallowGhost]
+	if ret == nil || !ok {
 		return
 	}
-	for _, ec := range f.errCalls {
-		st2 := st.clone()
-		goal := implies(not(f.ifaceEq(ec.err.T, zeroOfSort("Iface"))), not(f.ifaceEq(ret.T, zeroOfSort("Iface"))))
-		f.oblige(st2, "noswallow", ec.name, goal, token.NoPos)
-	}
+	st2 := st.clone()
+	goal := implies(g.T, not(f.ifaceEq(ret.T, zeroOfSort("Iface"))))
+	f.oblige(st2, "noswallow", "an error returned by a call is reported", goal, r.instr.Pos())
 }
 
 // finishVC adds global facts: interface implementation tables, error globals.
@@ -915,4 +980,42 @@ func leafIndex(addr ssa.Value) (ssa.Value, int, bool) {
 		return nil, 0, false
 	}
 	return g, idx, true
+}
+
+// funcFieldOf: v is the value of a function-typed field T.f (loaded through a
+// pointer or extracted from a struct value); returns T's name and f.
+// funcTypeOf: the name of the named function type of a called value.
+func funcTypeOf(v ssa.Value) string {
+	if n, ok := v.Type().(*types.Named); ok {
+		if _, ok := n.Underlying().(*types.Signature); ok {
+			return n.Obj().Name()
+		}
+	}
+	return ""
+}
+
+func funcFieldOf(v ssa.Value) (string, string) {
+	named := func(t types.Type) string {
+		if p, ok := t.Underlying().(*types.Pointer); ok {
+			t = p.Elem()
+		}
+		if n, ok := t.(*types.Named); ok {
+			return n.Obj().Name()
+		}
+		return ""
+	}
+	switch x := v.(type) {
+	case *ssa.UnOp:
+		if fa, ok := x.X.(*ssa.FieldAddr); ok {
+			st := fa.X.Type().Underlying().(*types.Pointer).Elem()
+			if s, ok := st.Underlying().(*types.Struct); ok {
+				return named(st), s.Field(fa.Field).Name()
+			}
+		}
+	case *ssa.Field:
+		if s, ok := x.X.Type().Underlying().(*types.Struct); ok {
+			return named(x.X.Type()), s.Field(x.Field).Name()
+		}
+	}
+	return "", ""
 }
